@@ -25,6 +25,14 @@ EncOk(e)   == /\ e.enc = EncryptBlock(e.w, e.key)
 EncBytesOk(e) == /\ e.enc = EncryptBytes(e.b, e.key)
                  /\ e.dec = e.b
                  /\ Len(e.enc) = Len(e.b)
+\* > 1 MiB buffers of a constant byte: probe words equal the reference keystream applied to the
+\* regenerated plaintext, the tail stays in the clear, decrypting gives the plaintext back (tokens)
+EncBigOk(e) == LET pw == WFromBytes(e.byte, e.byte, e.byte, e.byte)
+                   ps == {e.probes[j][1] : j \in 1..Len(e.probes)}
+                   ref == IF e.key = WZero THEN [ix \in ps |-> pw] ELSE EncryptProbes(pw, e.nwords, e.key, ps)
+               IN  /\ \A j \in 1..Len(e.probes) : e.probes[j][2] = ref[e.probes[j][1]]
+                   /\ e.tail = e.tailplain
+                   /\ e.dtok = e.ptok
 HetOk(e)   == LET h == HetHash(e.b, e.bits) IN e.file = h.file /\ e.name1 = h.name1
 
 \* jenkins_hash: the as-coded 64-bit accumulator or the published 32-bit function
@@ -42,6 +50,7 @@ Ok(e) == CASE e.ev = "Table"    -> TableOk(e)
            [] e.ev = "Het"      -> HetOk(e)
            [] e.ev = "Oaat"     -> OaatOk(e)
            [] e.ev = "Wrap"     -> WrapOk(e)
+           [] e.ev = "EncBig"   -> EncBigOk(e)
            [] e.ev = "HashB"    -> HashOk(e)          \* byte-level / SIMD entry points: same reference
            [] e.ev = "Reset"    -> TRUE
            [] OTHER             -> Assert(FALSE, <<"unknown event", e>>)
